@@ -89,6 +89,14 @@ let run_hist cfgtok evtok =
       let recs = Stdlib.List.rev st.g_rec in
       parts @ ["rec=" ^ (if recs = [] then "-" else String.concat "/" (Stdlib.List.map (show_labels "F") recs))]
     else parts in
+  let parts =
+    if c.cf_hook then
+      let hs = Stdlib.List.rev st.g_hook in
+      let show (ms, st) =
+        (if ms = [] then "-" else String.concat "," (Stdlib.List.map (fun i -> string_of_int (int_of_nat i)) ms))
+        ^ ":" ^ string_of_int (int_of_nat st) in
+      parts @ ["hook=" ^ (if hs = [] then "-" else String.concat "/" (Stdlib.List.map show hs))]
+    else parts in
   if parts = [] then "-" else String.concat "|" parts
 
 let show_res = function
